@@ -381,6 +381,22 @@ impl DhtHandler {
     }
 //@end
 
+//@begin fn src/handler.rs impl:DhtHandler run rules=R-deasync,R-mutself props=C18,C11
+    #[verifier::exec_allows_no_decreases_clause]
+    pub fn run(&mut self, Tracked(tr): Tracked<&mut Trace>)
+        requires old(self).hinv(),
+        ensures final(self).hinv(), // @C18.single_refresh_chain @C11.single_refresh_chain
+            extends(old(tr).ev, final(tr).ev),
+    {
+        while self.running
+            invariant self.hinv(), // @C18.single_refresh_chain @C11.single_refresh_chain
+                extends(old(tr).ev, tr.ev),
+        {
+            self.run_once(Tracked(tr))
+        }
+    }
+//@end
+
 //@begin fn src/handler.rs impl:DhtHandler run_once rules=R-deasync,R-select props=C14,C15,C16,C18,C11,C04
     pub fn run_once(&mut self, Tracked(tr): Tracked<&mut Trace>)
         requires old(self).hinv(),
